@@ -52,6 +52,31 @@ func oracleC14(cx *CheckCtx, runs []*CaseRun) []Finding {
 				break
 			}
 		}
+		// the Group form (fnew) must be equivalent to building the statement with the function /
+		// statement forms and adding it to the group afterwards
+		{
+			alt := &Case{ID: cr.Case.ID + "-viaAdd"}
+			changed := false
+			for _, o := range cr.Case.Ops {
+				if o.Kind == OpFNew {
+					alt.Ops = append(alt.Ops, Op{Kind: OpStmt, S: o.S, Items: o.Items}, Op{Kind: OpFAdd, F: o.F, Args: []Arg{Ref{Reg: o.S}}})
+					changed = true
+				} else {
+					alt.Ops = append(alt.Ops, o)
+				}
+			}
+			if changed {
+				obs, bp := RunReal(alt, &FormChooser{r: NewRng(uint64(ci) + 5), Fixed: 1}, false)
+				if bp == "" {
+					for i := range cr.Real {
+						if i < len(obs) && (obs[i].Class != cr.Real[i].Class || obs[i].Out != cr.Real[i].Out) {
+							fs = append(fs, Finding{Property: "C14", Shape: "group-form-differs", What: "building a statement through the Group form renders differently from building it with the function/statement form and adding it to the group", Case: cr.Case.Text(), Expected: trunc(obs[i].Out), Observed: trunc(cr.Real[i].Out)})
+							break
+						}
+					}
+				}
+			}
+		}
 		// GoString = Render = RenderWithFile(fresh file) for every statement register
 		rl := NewReal(&FormChooser{r: NewRng(5), Fixed: 1})
 		func() {
